@@ -89,6 +89,8 @@ def build_traces(path, tier, seed):
             target = dt * float(rng.integers(2, 9))            # commensurate, decimate
         elif mode == 2:
             target = dt / float(rng.integers(2, 9))            # commensurate, refine
+        elif mode == 3 and i % 10 == 3:
+            target = dt * (1.0 + float(rng.choice([5e-6, -5e-6, 1e-9, -1e-9, 1e-13, 3e-4, -3e-4])))   # almost, but not, equal steps
         else:
             target = dt * float(10.0 ** rng.uniform(-1.0, 1.0))
         nmin = int(2 * max(dt, target) / dt) + 2
@@ -131,6 +133,11 @@ def build_traces(path, tier, seed):
         ks = sorted(set(int(v) for v in rng.integers(1, kmax + 1, size=nk))) if nk else []
         a_s = [float(v) for v in rng.standard_normal(len(ks))]
         b_s = [float(v) for v in rng.standard_normal(len(ks))]
+        if mode in (0, 2) and n % 2 == 0 and i % 2 == 0:
+            # refinement / same step: the record's own Nyquist bin (alternating +a, -a) is below the new Nyquist frequency
+            ks.append(n // 2)
+            a_s.append(float(rng.uniform(0.3, 1.0)))
+            b_s.append(0.0)
         c0 = float(rng.uniform(-1, 1))
         tt = np.arange(n) * dt
         x = c0 + sum(a * np.cos(2 * np.pi * k * tt / (n * dt)) + b * np.sin(2 * np.pi * k * tt / (n * dt)) for k, a, b in zip(ks, a_s, b_s)) if ks else np.full(n, c0)
